@@ -248,7 +248,8 @@ func (vc *VC) frameGoals(old, cur *State, targets []modTarget) map[string]string
 				exc = append(exc, eq(r, t.ref))
 			}
 		}
-		goals[h] = implies(not(or(exc...)), eq(sel(cur.H[h], r), sel(old.H[h], r)))
+		// (objects allocated since the old state, e.g. local buffers, are not part of the frame)
+		goals[h] = implies(and(app("bvult", r, old.H["next"]), not(or(exc...))), eq(sel(cur.H[h], r), sel(old.H[h], r)))
 	}
 	return goals
 }
